@@ -45,7 +45,8 @@ def generate(seed, tier, index):
         steps = (1000, 5000)
     entry = C.make_script_entry(rs, ru, rk, kind, p,
                                 {"steps": steps, "policy": rk.choice(["on_iteration", "on_iteration", "on_interval", "on_t_sample"]),
-                                 "nreq": (3, 12), "p_explicit_tmax": 0.7, "isp": "none" if huge else None},
+                                 "nreq": (3, 12), "p_explicit_tmax": 0.7, "isp": "none" if huge else None,
+                                 "tauleap_overshoot": 0.15},
                                 rich=rs.chance(0.4) and not huge)
     sp = entry["phys"]["sp"]
     nrep = rf.wchoice([(1, 3), (2, 2)])
